@@ -124,6 +124,29 @@ class LInt(L[int]):
     pass
 
 
+# generics with two parameters, nested in each other over a shared TypeVar, and
+# derived over bounded TypeVars that stay unsubscripted
+U = TypeVar('U')
+TInt = TypeVar('TInt', bound=int)
+TStr = TypeVar('TStr', bound=str)
+
+
+class Bag(list[T]):
+    pass
+
+
+class Table(dict[T, U]):
+    pass
+
+
+class PairL(Generic[T, U], list[U]):
+    pass
+
+
+class Scores(Table[TInt, TStr]):
+    pass
+
+
 class GenSeq(Sequence[T]):
     """Pure-Python generic sequence."""
     def __init__(self, items=()): self._items = list(items)
